@@ -1049,6 +1049,21 @@ func (g *generator) seedBit(i int) bool { return (g.seed+int64(i))%3 != 0 }
 
 // C08: build a small state (often 0, 1, 2 elements), then several iterator scripts.
 func (g *generator) caseC08() *caseGen {
+	// iterators of the trees follow Parent pointers that only rebalancing deep trees rearranges: one case in
+	// twelve is a tree history of C07 (long runs over a large key range, removals) with iterator scripts in it
+	if g.chance(8) {
+		c := g.caseC07()
+		if hasIterator(c.cfg.Kind) {
+			for i := g.between(2, 5); i > 0 && len(c.plan) > 0; i-- {
+				at := g.intn(len(c.plan))
+				c.plan = append(c.plan[:at], append([]string{"Iter"}, c.plan[at:]...)...)
+			}
+			for i := g.between(2, 4); i > 0; i-- {
+				c.plan = append(c.plan, "Iter")
+			}
+		}
+		return c
+	}
 	kind := g.pick(iteratorKinds())
 	c := g.baseCase(kind)
 	var build int
